@@ -43,12 +43,13 @@ Accepts(e) ==
   /\ e.err = ""
   /\ (e.via = "file" => e.stored_as = FormatOf(e.suffix))
   /\ e.header = CoordCols \o e.cols
+  /\ e.cols_back = e.cols                         \* the features come back in their original order
   /\ Len(e.back) = Len(e.rows)
   /\ \A i \in 1..Len(e.rows) : RowOk(e.rows[i], e.back[i], IF e.stored_as = "csv" THEN "csv" ELSE "exact", e.prec)
 Why(e) == IF e.err # "" THEN "UnexpectedError"
           ELSE IF Accepts(e) THEN "ok"
           ELSE IF e.via = "file" /\ e.stored_as # FormatOf(e.suffix) THEN "WrongFormatForSuffix"
-          ELSE IF e.header # CoordCols \o e.cols THEN "ColumnLayout"
+          ELSE IF e.header # CoordCols \o e.cols \/ e.cols_back # e.cols THEN "ColumnLayout"
           ELSE IF Len(e.back) # Len(e.rows) THEN "RowCount"
           ELSE IF \E i \in 1..Len(e.rows) : \E a \in 1..3 : ~(IF e.stored_as = "csv" THEN WithinPrecQ(e.rows[i].pos[a], e.back[i].pos[a], e.prec, e.rows[i].q[a]) ELSE e.rows[i].pos[a] = e.back[i].pos[a]) THEN "Position"
           ELSE IF \E i \in 1..Len(e.rows) : e.back[i].angle_urad > AngleTol(IF e.stored_as = "csv" THEN "csv" ELSE "exact", e.prec) THEN "Orientation"
